@@ -84,6 +84,9 @@ func (e *eventRingBuffer) GetRecentEvents(count uint64) []*si.EventRecord {
 		startID = lastID - count + 1
 	}
 
+	if startID < e.lowestId {
+		startID = e.lowestId
+	}
 	history, _, _ := e.getEventsFromID(startID, count)
 	return history
 }
@@ -120,10 +123,9 @@ func (e *eventRingBuffer) getEventsFromID(id uint64, count uint64) ([]*si.EventR
 		}
 		// second range only if still events left to fetch
 		var r2 *eventRange
-		end = pos + count - e.capacity
-		if end > 0 {
+		if pos+count > e.capacity {
 			// never fetch pass the current head
-			end = min(end, e.head)
+			end = min(pos+count-e.capacity, e.head)
 			r2 = &eventRange{
 				start: 0,
 				end:   end,
